@@ -254,6 +254,89 @@ def check_offline_base(ix, rep, basef, time, ref_table):
 
 
 # ------------------------------------------------------------------------------------------------- online operations
+SEMANTICS = ('STANDARD', 'OUTPUT_ROBUSTNESS', 'INPUT_ROBUSTNESS', 'INPUT_VACUITY', 'OUTPUT_VACUITY')
+
+
+class _Unknown(Exception):
+    pass
+
+
+def _truth(e, world, env):
+    """truth value of a condition in a world {'sem': X, 'in_vars': empty?, 'out_vars': empty?}; locals bound once to such conditions are
+    followed.  Atoms: self.semantics == / != / is Semantics.X, self.semantics in (..), truthiness / len() of self.in_vars, self.out_vars"""
+    if isinstance(e, ast.BoolOp):
+        vals = [_truth(v, world, env) for v in e.values]
+        return all(vals) if isinstance(e.op, ast.And) else any(vals)
+    if isinstance(e, ast.UnaryOp) and isinstance(e.op, ast.Not):
+        return not _truth(e.operand, world, env)
+    if isinstance(e, ast.Name) and e.id in env:
+        return _truth(env[e.id], world, env)
+    if isinstance(e, ast.Constant) and isinstance(e.value, bool):
+        return e.value
+    if isinstance(e, ast.Attribute) and isinstance(e.value, ast.Name) and e.value.id == 'self' and e.attr in ('in_vars', 'out_vars'):
+        return not world[e.attr]
+    if isinstance(e, ast.Call) and isinstance(e.func, ast.Name) and e.func.id == 'bool' and len(e.args) == 1:
+        return _truth(e.args[0], world, env)
+    if isinstance(e, ast.Compare) and len(e.ops) == 1:
+        l, op, r = e.left, e.ops[0], e.comparators[0]
+
+        def sem_of(x):
+            if isinstance(x, ast.Attribute) and ast.unparse(x.value) == 'Semantics' and x.attr in SEMANTICS:
+                return x.attr
+            return None
+        is_sem = lambda x: isinstance(x, ast.Attribute) and isinstance(x.value, ast.Name) and x.value.id == 'self' and x.attr == 'semantics'
+        if is_sem(l) and sem_of(r) and isinstance(op, (ast.Eq, ast.Is)):
+            return world['sem'] == sem_of(r)
+        if is_sem(l) and sem_of(r) and isinstance(op, (ast.NotEq, ast.IsNot)):
+            return world['sem'] != sem_of(r)
+        if is_sem(r) and sem_of(l) and isinstance(op, (ast.Eq, ast.Is)):
+            return world['sem'] == sem_of(l)
+        if is_sem(l) and isinstance(op, (ast.In, ast.NotIn)) and isinstance(r, (ast.Tuple, ast.List, ast.Set)) and all(sem_of(x) for x in r.elts):
+            inside = world['sem'] in [sem_of(x) for x in r.elts]
+            return inside if isinstance(op, ast.In) else not inside
+        # len(self.x) == 0 / > 0 / self.x == []
+        def var_of(x):
+            if isinstance(x, ast.Call) and isinstance(x.func, ast.Name) and x.func.id == 'len' and len(x.args) == 1:
+                x = x.args[0]
+                if isinstance(x, ast.Attribute) and isinstance(x.value, ast.Name) and x.value.id == 'self' and x.attr in ('in_vars', 'out_vars'):
+                    return x.attr
+            return None
+        v = var_of(l)
+        if v and isinstance(r, ast.Constant) and r.value == 0:
+            if isinstance(op, ast.Eq):
+                return world[v]
+            if isinstance(op, (ast.Gt, ast.NotEq)):
+                return not world[v]
+        if v and isinstance(r, ast.Constant) and r.value == 1 and isinstance(op, ast.GtE):
+            return not world[v]
+        if isinstance(l, ast.Attribute) and isinstance(l.value, ast.Name) and l.value.id == 'self' and l.attr in ('in_vars', 'out_vars') and isinstance(r, ast.List) and not r.elts:
+            if isinstance(op, ast.Eq):
+                return world[l.attr]
+            if isinstance(op, ast.NotEq):
+                return not world[l.attr]
+    raise _Unknown(ast.unparse(e)[:60])
+
+
+def _worlds():
+    for sem in SEMANTICS:
+        for i in (True, False):
+            for o in (True, False):
+                yield {'sem': sem, 'in_vars': i, 'out_vars': o}
+
+
+def _reference_arm(w):
+    """the interface-aware table: which substitution applies to a predicate in this world"""
+    if (w['sem'] == 'OUTPUT_ROBUSTNESS' and w['out_vars']) or (w['sem'] == 'INPUT_ROBUSTNESS' and w['in_vars']):
+        return 'inf'
+    if (w['sem'] == 'INPUT_VACUITY' and w['in_vars']) or (w['sem'] == 'OUTPUT_VACUITY' and w['out_vars']):
+        return 'zero'
+    return 'default'
+
+
+def _show_world(w):
+    return '%s, %s input variables, %s output variables' % (w['sem'], 'no' if w['in_vars'] else 'some', 'no' if w['out_vars'] else 'some')
+
+
 def _sem_conditions(test):
     """(Semantics.X and not self.attr) or (...) -> set of (X, attr)"""
     out = set()
@@ -295,26 +378,43 @@ def check_online_operation(ix, rep, opc, time):
         else:
             arms.append((None, n.orelse))
             break
-    want_inf = {('OUTPUT_ROBUSTNESS', 'out_vars'), ('INPUT_ROBUSTNESS', 'in_vars')}
-    want_zero = {('INPUT_VACUITY', 'in_vars'), ('OUTPUT_VACUITY', 'out_vars')}
+    # the arms are executed over the 20 worlds (5 semantics x input variables empty? x output variables empty?): whatever the conditions look
+    # like, the arm taken in each world has to be the one of the interface-aware table
+    env = {}
+    for st in f.node.body:
+        if isinstance(st, ast.Assign) and len(st.targets) == 1 and isinstance(st.targets[0], ast.Name) and not isinstance(st.value, ast.Call):
+            env[st.targets[0].id] = st.value
     seen = {}
+    kinds = []
     for test, body in arms:
-        if test is None:
-            continue
-        conds = _sem_conditions(test)
-        if conds is None:
-            raise AnalysisError('%s: semantics condition `%s` not understood' % (f.where, ast.unparse(test)[:60]))
-        sk = subst_kind(body)
-        seen[sk[0] if sk else 'other'] = (conds, sk, test)
-    for kind, want in (('inf', want_inf), ('zero', want_zero)):
-        got = seen.get(kind)
-        if got is None:
-            rep.fail('R-IATABLE', f.module.rel, '%s.update' % opc.name, '%s:%s' % (slot, kind), 'no branch substitutes %s' % ('+-inf' if kind == 'inf' else '0'), f.node.lineno)
-        elif got[0] != want:
-            rep.fail('R-IATABLE', f.module.rel, '%s.update' % opc.name, '%s:%s' % (slot, kind),
-                     'the branch substituting %s is taken for %s, expected %s' % ('+-inf by verdict' if kind == 'inf' else '0', sorted(got[0]), sorted(want)), got[2].lineno)
-        else:
-            rep.ok('R-IATABLE', f.module.rel, '%s.update' % opc.name, '%s:%s' % (slot, kind), 'taken exactly for %s' % sorted(want), got[2].lineno)
+        sk = subst_kind(body) if test is not None else None
+        kinds.append(sk[0] if sk else ('default' if test is None or not body else 'other'))
+        if test is not None:
+            seen[sk[0] if sk else 'other'] = (None, sk, test)
+    wrong = {}
+    try:
+        for w in _worlds():
+            taken = None
+            for (test, body), kind in zip(arms, kinds):
+                if test is None or _truth(test, w, env):
+                    taken = kind
+                    break
+            want = _reference_arm(w)
+            if taken != want:
+                wrong.setdefault(want, []).append((w, taken))
+    except _Unknown as e:
+        raise AnalysisError('%s: semantics condition `%s` not understood' % (f.where, e))
+    for kind in ('inf', 'zero', 'default'):
+        label = {'inf': '+-inf by verdict', 'zero': '0', 'default': 'nothing (the standard robustness)'}[kind]
+        if kind != 'default' and kind not in seen:
+            rep.fail('R-IATABLE', f.module.rel, '%s.update' % opc.name, '%s:%s' % (slot, kind), 'no branch substitutes %s' % label, f.node.lineno)
+        elif kind in wrong:
+            w, taken = wrong[kind][0]
+            rep.fail('R-IATABLE', f.module.rel, '%s.update' % opc.name, '%s:%s' % (slot, kind), 'for a predicate with (%s) the table substitutes %s, update() takes the branch substituting %s'
+                     ' (%d of 20 cases differ)' % (_show_world(w), label, {'inf': '+-inf', 'zero': '0', 'default': 'nothing', 'other': 'something else', None: 'nothing'}.get(taken, taken),
+                                                  sum(len(v) for v in wrong.values())), (seen[kind][2].lineno if kind in seen else f.node.lineno))
+        elif kind != 'default':
+            rep.ok('R-IATABLE', f.module.rel, '%s.update' % opc.name, '%s:%s' % (slot, kind), 'taken in exactly the worlds of the table (20 worlds executed)', seen[kind][2].lineno)
     if 'inverted' in seen:
         rep.fail('R-IATABLE', f.module.rel, '%s.update' % opc.name, slot + ':sign', 'a holding insensitive predicate is mapped to -inf', f.node.lineno)
     # default arm: numeric robustness of the standard operation, unchanged
